@@ -115,6 +115,23 @@ def run(ck):
                     w2 = list(snap.wits); w2[n0] = t
                     w2[n0 + 1] = (t + y1 * x2) * J.inv(d1) % R; w2[n0 + 2] = (y1 * y2 + x1 * x2) * J.inv(d2) % R
                     job(f"{name}_solved", snap, w2, False, "add: product wire forged, sum solved for it", name)
+                # two of the three curve-addition residuals (xy, x3, y3) non-zero with sum zero: rejected by the coded
+                # widget (weights 1, kappa, kappa^2), accepted by one that gives two of them the same weight
+                yx = y1 * x2 % R
+                for pair in (("x3", "y3"), ("xy", "x3"), ("xy", "y3")):
+                    eps = rng.scalar() or 1
+                    T = (x1 * y2 - (eps if pair[0] == "xy" else 0)) % R          # vb_xy = eps
+                    D1, D2 = (1 + D_ED * T % R * yx) % R, (1 - D_ED * T % R * yx) % R
+                    if not D1 or not D2: continue
+                    nx, ny = (T + yx) % R, (y1 * y2 + x1 * x2) % R
+                    if pair == ("xy", "x3"): nx = (nx + eps) % R                    # vb_x3 = -eps
+                    if pair == ("xy", "y3"): ny = (ny + eps) % R                    # vb_y3 = -eps
+                    X3, Y3 = nx * J.inv(D1) % R, ny * J.inv(D2) % R
+                    if pair == ("x3", "y3"):
+                        X3 = (X3 + eps) % R                                           # vb_x3 = -eps D1
+                        Y3 = (Y3 - eps * D1 % R * J.inv(D2)) % R                      # vb_y3 = +eps D1
+                    w2 = list(snap.wits); w2[n0], w2[n0 + 1], w2[n0 + 2] = T, X3, Y3
+                    job(f"{name}_c{pair[0]}{pair[1]}", snap, w2, False, f"add: residuals {pair[0]} and {pair[1]} non-zero with sum zero", name)
                 # another curve point as the claimed sum
                 o = J.add(want, J.GEN); w2 = list(snap.wits); w2[n0 + 1], w2[n0 + 2] = o
                 job(f"{name}_other", snap, w2, False, "add: another curve point claimed as the sum", name)
@@ -170,7 +187,7 @@ def run(ck):
             ck.violation(f"{tag}: rows of the real layout satisfiable={got}, property requires {expect[nm]} ({meta[prog][:2]})",
                          {"failing_input_found": True, "program": progs[prog], "template": tag}, key=f"{tag}")
     for nm, over in composer.second_opinion(ck, jobs, expect, progs, lambda n: info[n][1], "c12_rp",
-                                            lambda n: n.endswith(("_solved", "_other", "_p0", "_bit")) or "_ghost" in n or (n.startswith("selid") and expect.get(n) is False), limit=8 if quick else 40):
+                                            lambda n: n.endswith(("_solved", "_other", "_p0", "_bit", "_cx3y3", "_cxyx3", "_cxyy3")) or "_ghost" in n or (n.startswith("selid") and expect.get(n) is False), limit=14 if quick else 60):
         tag, prog = info[nm]
         ck.violation(f"{tag}: the REAL prover produced a proof for this assignment and the verifier accepted it ({meta[prog][:2]})",
                      {"failing_input_found": True, "program": progs[prog], "witness_overrides": {str(i): hx(v) for i, v in over.items()}, "template": tag}, key="accepted:" + tag[:40])
